@@ -101,13 +101,24 @@ class Items:
         self.base = base
 
     def __getitem__(self, key):
-        # items[k:] with k >= 0 (the only form used on a batch): the last m-k rows
-        if isinstance(key, slice) and key.stop is None and key.step is None and key.start is not None:
-            k = key.start
-            if bool(k < 0):
-                raise NotImplementedError('negative slice start on a batch')
-            k = sx.smin(k, self.m) if (sx.is_sym(k) or sx.is_sym(self.m)) else min(k, self.m)
-            return Items(self.m - k, self.base + k)
+        # contiguous slice of the batch with python's rules (negative bounds count from the end, bounds clamp); comparisons on
+        # symbolic bounds split the path
+        if isinstance(key, slice) and key.step is None:
+            m = self.m
+
+            def norm(v, default):
+                if v is None:
+                    return default
+                if v < 0:
+                    v = v + m
+                    return v if v > 0 else 0
+                return v if v < m else m
+            start = norm(key.start, 0)
+            stop = norm(key.stop, m)
+            n = stop - start
+            if n < 0:
+                n = 0
+            return Items(n, self.base + start)
         raise NotImplementedError('batch indexing %r' % (key,))
 
 
